@@ -13,3 +13,21 @@ import PsVerif
 #print axioms PsVerif.tailShuffle_take
 #print axioms PsVerif.selected_spec
 #print axioms PsVerif.ranking_pipeline_spec
+-- C03
+#print axioms PsVerif.qr_greedy_max
+#print axioms PsVerif.gram_state_nonneg
+#print axioms PsVerif.qr_pick_max_mgs_residual
+#print axioms PsVerif.mgs_residual_characterisation
+#print axioms PsVerif.leading_rows_independent
+#print axioms PsVerif.zero_pick_all_zero
+#print axioms PsVerif.ccqr_nocost_eq_qr
+#print axioms PsVerif.gqr_unconstrained_eq_qr
+-- C04
+#print axioms PsVerif.candScores_noMask
+#print axioms PsVerif.ccqr_score_exact
+#print axioms PsVerif.ccqr_greedy_max
+#print axioms PsVerif.ccqr_shift_invariant
+#print axioms PsVerif.ccqr_zero_eq_qr
+#print axioms PsVerif.ccqr_none_eq_qr
+#print axioms PsVerif.ccqr_prohibitive
+#print axioms PsVerif.zero_pivot_removes_nothing
